@@ -41,7 +41,21 @@ def probe_padding_variant():
     return out[1].shape[1] == 3
 
 
-TOL_MPO2 = 1e-4  # MPO @ MPO truncates with DEFAULT_PRECISION = 1e-5 (zip_right); relative to ||H||^2
+# <H^2> through MPO @ MPO: zip_right compresses H^2 with the library defaults (absolute singular-value threshold
+# DEFAULT_PRECISION = 1e-5 per bond, independent of the state).  The Frobenius (hence operator-norm) error of H^2 is at most
+# 1e-5 per bond, so |<psi|H^2|psi> - reported| <= (sites - 1) * 1e-5 * |psi|^2; measured: <= 2e-7 (padded qutrit MPO), usually
+# ~1e-13.  Tolerance: rounding part 1e-9 * ||H||^2 plus 3x that bound.  Nothing in an observable may depend on the STATE's
+# truncation settings (precision / max_bond_dim): a truncation of H|psi> at max_bond_dim <= 6 or precision >= 1e-3 on a
+# saturated state shows as an error >= 1e-3, far above this tolerance.
+TOL_MPO2 = 3e-5
+
+
+def _tol_m2(sites, n2, hs):
+    return TOL * max(1.0, hs * hs * n2) + TOL_MPO2 * sites * n2
+
+
+def _near(a, b, tol):
+    return abs(a - b) <= tol
 
 
 def _nat(n):
@@ -564,6 +578,17 @@ def _eig(d):
     return ("r", "g") if d == 2 else ("g", "r", "x")
 
 
+def _trunc(case):
+    """truncation settings carried by the state (None = library defaults 1e-5 / 1024)"""
+    t = case.get("trunc")
+    return {} if not t else {"precision": t["precision"], "max_bond_dim": t["max_bond_dim"]}
+
+
+def _sat_bonds(n, d, cap):
+    """bond dimensions of an entangled state saturating the cap"""
+    return [1] + [min(cap, d ** min(i, n - i)) for i in range(1, n)] + [1]
+
+
 def _rand_mps(g, rng_bonds, d, scale):
     import torch
     n = len(rng_bonds) - 1
@@ -618,37 +643,43 @@ def fals_mps(ctx, case):
     Hd = _dense_mpo(H.factors).numpy()
     hs = float(np.abs(Hd).sum(axis=1).max())
     occ_r, cor_r, e_r, m2_r, n2 = _mps_refs(psi, Hd, n, d)
-    st = MPS([t.clone() for t in fs], num_gpus_to_use=0, eigenstates=_eig(d))
+    st = MPS([t.clone() for t in fs], num_gpus_to_use=0, eigenstates=_eig(d), **_trunc(case))
     if case["center"] is not None:
         st.orthogonalize(case["center"])
     kw = dict(config=None)
+    sfx = "-truncated" if case.get("trunc") else ""
 
     def bad(what, key):
-        ctx.violation(what, {"case": case, "finding_key": key})
+        ctx.violation(what + (f" (state carries {case['trunc']})" if case.get("trunc") else ""),
+                      {"case": case, "finding_key": key})
 
     occ = mci.qubit_occupation_mps_impl(None, state=st, hamiltonian=H, **kw).numpy()
     if not _close(occ, occ_r, n2):
-        bad("mps occupation differs from sum_{b: b_i=1} |amp b|^2", "mps-occupation")
+        bad("mps occupation differs from sum_{b: b_i=1} |amp b|^2", "mps-occupation" + sfx)
     cor = mci.correlation_matrix_mps_impl(None, state=st, hamiltonian=H, **kw).numpy()
     if not _close(cor, cor_r, n2):
-        bad("mps correlation matrix differs from its definition", "mps-correlation")
+        bad("mps correlation matrix differs from its definition", "mps-correlation" + sfx)
     if st.orthogonality_center != 0:
         st.orthogonalize(case["center"] or 0)
     e = float(mci.energy_mps_impl(None, state=st, hamiltonian=H, **kw))
     m2 = float(mci.energy_second_moment_mps_impl(None, state=st, hamiltonian=H, **kw))
     var = float(mci.energy_variance_mps_impl(None, state=st, hamiltonian=H, **kw))
     if not _close([e], [e_r], hs * n2):
-        bad(f"mps energy {e} differs from <psi|H|psi> = {e_r}", "mps-energy")
-    if not _close([m2], [m2_r], hs * hs * n2, TOL_MPO2):
-        bad(f"mps energy second moment {m2} differs from <psi|H^2|psi> = {m2_r}", "mps-second-moment")
-    if not _close([var], [m2_r - e_r * e_r], hs * hs * max(n2, n2 * n2), TOL_MPO2):
-        bad(f"mps energy variance {var} differs from <H^2>-<H>^2 = {m2_r - e_r * e_r}", "mps-variance")
+        bad(f"mps energy {e} differs from <psi|H|psi> = {e_r}", "mps-energy" + sfx)
+    if not _near(m2, m2_r, _tol_m2(n, n2, hs)):
+        bad(f"mps energy second moment {m2} differs from <psi|H^2|psi> = {m2_r} on the same state", "mps-second-moment" + sfx)
+    if not _near(var, m2_r - e_r * e_r, _tol_m2(n, max(n2, n2 * n2), hs)):
+        bad(f"mps energy variance {var} differs from <H^2>-<H>^2 = {m2_r - e_r * e_r} on the same state", "mps-variance" + sfx)
+    if abs(n2 - 1.0) < 1e-9 and var < -1e-12 * max(1.0, m2_r) - (0 if sfx else _tol_m2(n, 1.0, 0.0)):
+        bad(f"mps energy variance of a normalised state is negative: {var}", "mps-variance-range" + sfx)
     # the state must still be the same state (observables must not change it)
     after = _dense_state(st.factors).numpy()
     if not _close(after, psi, math.sqrt(n2)):
         bad("computing observables changed the state", "mps-state-changed")
     # entanglement entropy of the normalised state, every bond, against the dense SVD; range [0, log d^k]
     stn = (1 / st.norm()) * st
+    if (stn.precision, stn.max_bond_dim) != (st.precision, st.max_bond_dim):
+        bad("scaling a state changed its truncation settings", "mps-settings-lost")
     v = psi / math.sqrt(n2)
     for site in range(n - 1):
         s = np.linalg.svd(v.reshape(d ** (site + 1), -1), compute_uv=False)
@@ -722,7 +753,8 @@ def fals_fill(ctx, case):
            EnergySecondMoment(evaluation_times=[1.0]), StateProbe()]
     cfg = MPSConfig(observables=obs, log_level=1000)
     impl_cls = NoisyMPSBackendImpl if case.get("impl") == "noisy" else MPSBackendImpl
-    st = MPS([t.clone() for t in fs], num_gpus_to_use=0, eigenstates=_eig(d))
+    st = MPS([t.clone() for t in fs], num_gpus_to_use=0, eigenstates=_eig(d), **_trunc(case))
+    sfx = "-truncated" if case.get("trunc") else ""
     if case["center"] is not None:
         st.orthogonalize(case["center"])
     fake = types.SimpleNamespace(
@@ -767,15 +799,97 @@ def fals_fill(ctx, case):
         bad("reported correlation differs from the definition on the padded normalised state", "fill-correlation")
     if not _close([float(res["energy"])], [e_r], hs):
         bad(f"reported energy {float(res['energy'])} differs from <H> = {e_r} on the normalised state", "fill-energy")
-    if not _close([float(res["energy_second_moment"])], [m2_r], hs * hs, TOL_MPO2):
-        bad("reported energy second moment differs from <H^2> on the normalised state", "fill-second-moment")
-    if not _close([float(res["energy_variance"])], [m2_r - e_r * e_r], hs * hs, TOL_MPO2):
-        bad("reported energy variance differs from <H^2>-<H>^2 on the normalised state", "fill-variance")
+    if not _near(float(res["energy_second_moment"]), m2_r, _tol_m2(len(mask), 1.0, hs)):
+        bad(f"reported energy second moment {float(res['energy_second_moment'])} differs from <H^2> = {m2_r} on the "
+            f"normalised state (state carries {case.get('trunc')})", "fill-second-moment" + sfx)
+    if not _near(float(res["energy_variance"]), m2_r - e_r * e_r, _tol_m2(len(mask), 1.0, hs)):
+        bad(f"reported energy variance {float(res['energy_variance'])} differs from <H^2>-<H>^2 = {m2_r - e_r * e_r} on "
+            f"the normalised state (state carries {case.get('trunc')})", "fill-variance" + sfx)
     if occ.min() < -TOL or occ.max() > 1 + TOL or cor.real.min() < -TOL or cor.real.max() > 1 + TOL:
         bad("reported occupation/correlation outside [0,1]", "fill-range")
-    if float(res["energy_variance"]) < -TOL_MPO2 * hs * hs:
-        bad("reported energy variance is negative", "fill-variance-range")
+    if float(res["energy_variance"]) < -1e-12 * max(1.0, m2_r) - _tol_m2(len(mask), 1.0, 0.0):
+        bad(f"reported energy variance is negative: {float(res['energy_variance'])}", "fill-variance-range" + sfx)
     return {"n2": n2}
+
+
+def fals_backend(ctx, case):
+    """A full MPSBackend run whose config carries tight truncation settings; every stored observable is compared with
+    the dense definition evaluated, by a probe observable, on the very (state, hamiltonian) pair handed to the callbacks."""
+    import logging
+    import random as pyrandom
+    import warnings
+    import numpy as np
+    import torch
+    import emu_mps
+    from pulser.backend import Occupation, CorrelationMatrix, Energy, EnergyVariance, EnergySecondMoment
+    from pulser.backend.observable import Observable
+    from emu_base.utils import observable_aggregation_kwargs
+    from props import _dense_ref as ref
+
+    n, steps = case["n"], case["steps"]
+    prob = ref.random_problem(pyrandom.Random(case["seed"]), n, steps, dt=case["dt"], local=case["local"], scale=case["drive"])
+    et = [k / steps for k in range(1, steps + 1)]
+    seen = {}
+
+    class DenseProbe(Observable):
+        def __init__(self):
+            super().__init__(evaluation_times=et, **observable_aggregation_kwargs("MEAN"))
+
+        @property
+        def _base_tag(self):
+            return "c13_dense_probe"
+
+        def apply(self, *, config, state, hamiltonian, **kw):
+            psi = _dense_state(state.factors).numpy().copy()
+            Hd = _dense_mpo(hamiltonian.factors).numpy()
+            occ, cor, e, m2, n2 = _mps_refs(psi, Hd, len(state.factors), state.factors[0].shape[1])
+            seen[len(seen)] = dict(occ=occ, cor=cor, e=e, m2=m2, n2=n2, hs=float(np.abs(Hd).sum(axis=1).max()),
+                                   chi=max(f.shape[2] for f in state.factors),
+                                   settings=(state.precision, state.max_bond_dim))
+            return torch.tensor(float(len(seen) - 1))
+
+    with warnings.catch_warnings():
+        warnings.simplefilter("ignore")
+        cfg = emu_mps.MPSConfig(observables=[Occupation(evaluation_times=et), CorrelationMatrix(evaluation_times=et),
+                                             Energy(evaluation_times=et), EnergyVariance(evaluation_times=et),
+                                             EnergySecondMoment(evaluation_times=et), DenseProbe()],
+                                log_level=logging.CRITICAL, optimize_qubit_ordering=False, num_gpus_to_use=0,
+                                **_trunc(case))
+        res = emu_mps.MPSBackend._run_from_sequence_data(ref.to_sequence_data(prob), cfg)
+    sfx = "-truncated" if case.get("trunc") else ""
+
+    def bad(what, key):
+        ctx.violation(f"backend run ({case.get('trunc')}): " + what, {"case": case, "finding_key": key})
+
+    chis = []
+    for t in et:
+        pr = seen[int(float(res.get_result("c13_dense_probe", t)))]
+        chis.append(pr["chi"])
+        hs, n2 = pr["hs"], pr["n2"]
+        if abs(n2 - 1.0) > TOL:
+            bad(f"callbacks got a state of squared norm {n2} at t={t}", "backend-state-not-normalised")
+        if not _close(np.asarray(res.get_result("occupation", t)), pr["occ"], n2):
+            bad(f"occupation at t={t} differs from its definition on the state handed to the callbacks", "backend-occupation" + sfx)
+        if not _close(np.asarray(res.get_result("correlation_matrix", t)), pr["cor"], n2):
+            bad(f"correlation matrix at t={t} differs from its definition", "backend-correlation" + sfx)
+        e, m2, var = (float(res.get_result(k, t)) for k in ("energy", "energy_second_moment", "energy_variance"))
+        if not _close([e], [pr["e"]], hs * n2):
+            bad(f"energy at t={t}: {e} vs <psi|H|psi> = {pr['e']}", "backend-energy" + sfx)
+        if not _near(m2, pr["m2"], _tol_m2(n, n2, hs)):
+            bad(f"energy second moment at t={t}: {m2} vs <psi|H^2|psi> = {pr['m2']} on the same state", "mps-second-moment" + sfx)
+        if not _near(var, pr["m2"] - pr["e"] ** 2, _tol_m2(n, n2, hs)):
+            bad(f"energy variance at t={t}: {var} vs {pr['m2'] - pr['e'] ** 2} on the same state", "mps-variance" + sfx)
+        if var < -1e-12 * max(1.0, pr["m2"]) - _tol_m2(n, 1.0, 0.0):
+            bad(f"energy variance at t={t} is negative: {var}", "mps-variance-range" + sfx)
+    return {"max_chi": max(chis), "settings": list(seen[0]["settings"]) if seen else None}
+
+
+def gen_backend_case(rng, tight):
+    c = {"kind": "fals_backend", "n": rng.randint(5, 6), "steps": rng.choice([2, 3]), "dt": rng.choice([10.0, 20.0]),
+         "seed": rng.getrandbits(40), "local": rng.random() < 0.5, "drive": rng.choice([1.0, 2.0])}
+    if tight:
+        c["trunc"] = {"max_bond_dim": rng.choice([2, 2, 3, 4]), "precision": rng.choice([1e-5, 1e-2, 1e-1])}
+    return c
 
 
 def gen_fals_case(rng, kind):
@@ -790,8 +904,16 @@ def gen_fals_case(rng, kind):
         n = rng.randint(2, 8 if d == 2 else 5)
         chi = rng.randint(1, 4)
         bonds = [1] + [rng.randint(1, chi) for _ in range(n - 1)] + [1]
-        return {"kind": kind, "n": n, "d": d, "bonds": bonds, "seed": seed, "scale": scale,
-                "center": rng.choice([None, None] + list(range(n))), "phases": rng.random() < 0.6}
+        c = {"kind": kind, "n": n, "d": d, "bonds": bonds, "seed": seed, "scale": scale,
+             "center": rng.choice([None, None] + list(range(n))), "phases": rng.random() < 0.6}
+        if rng.random() < 0.5:  # the state carries tight truncation settings and saturates its cap
+            cap = rng.choice([2, 3, 4, 6])
+            c["n"] = n = rng.randint(5, 7) if d == 2 else rng.randint(4, 5)
+            c["bonds"] = _sat_bonds(n, d, cap)
+            c["trunc"] = {"max_bond_dim": cap, "precision": rng.choice([1e-5, 1e-1, 1e-2, 1e-3, 0.2])}
+            c["center"] = rng.choice([None] + list(range(n)))
+            c["scale"] = rng.choice([1.0, 1.0, 0.3, 1.5])
+        return c
     # fill_results
     n_good = rng.randint(2, 6 if d == 2 else 4)
     n_dark = rng.choice([0, 1, 1, 2, 3])
@@ -807,9 +929,29 @@ def gen_fals_case(rng, kind):
     chi = rng.randint(1, 4)
     bonds = [1] + [rng.randint(1, chi) for _ in range(n_good - 1)] + [1]
     scale = rng.choice([1.0, 0.3, 1.5, round(rng.uniform(0.3, 1.5), 3), round(rng.uniform(0.3, 1.5), 3), 7.0])
-    return {"kind": "fals_fill", "mask": mask, "d": d, "bonds": bonds, "seed": seed, "scale": scale,
-            "center": rng.choice([None] + list(range(n_good))), "force_filter": rng.random() < 0.3, "style": style,
-            "impl": rng.choice(["plain", "noisy"])}
+    c = {"kind": "fals_fill", "mask": mask, "d": d, "bonds": bonds, "seed": seed, "scale": scale,
+         "center": rng.choice([None] + list(range(n_good))), "force_filter": rng.random() < 0.3, "style": style,
+         "impl": rng.choice(["plain", "noisy"])}
+    if rng.random() < 0.4:
+        cap = rng.choice([2, 3, 4])
+        c["bonds"] = _sat_bonds(n_good, d, cap)
+        c["trunc"] = {"max_bond_dim": cap, "precision": rng.choice([1e-5, 1e-1, 1e-3])}
+    return c
+
+
+def trunc_sweep(rng):
+    """deterministic part, always run: entangled states of 5-7 atoms saturating a small max_bond_dim / carrying a coarse
+    precision, through the observables' apply (fals_mps) and through fill_results without dark atoms (fals_fill)"""
+    out = []
+    for n, cap, prec in ((6, 4, 1e-5), (6, 2, 1e-5), (5, 3, 1e-3), (7, 6, 1e-1), (6, 4, 0.2), (5, 2, 1e-2)):
+        base = {"d": 2, "bonds": _sat_bonds(n, 2, cap if prec < 0.1 or cap < 6 else 4), "seed": rng.getrandbits(40),
+                "trunc": {"max_bond_dim": cap, "precision": prec}, "sweep": True}
+        out.append(dict(base, kind="fals_mps", n=n, scale=1.0, center=0, phases=True))
+        out.append(dict(base, kind="fals_fill", mask=[True] * n, scale=rng.choice([0.7, 1.0]), center=0,
+                        force_filter=False, style="none", impl=rng.choice(["plain", "noisy"])))
+    out.append({"kind": "fals_mps", "d": 3, "n": 4, "bonds": _sat_bonds(4, 3, 3), "seed": rng.getrandbits(40), "scale": 1.0,
+                "center": 0, "phases": True, "trunc": {"max_bond_dim": 3, "precision": 1e-5}, "sweep": True})
+    return out
 
 
 def fill_sweep(rng):
@@ -831,7 +973,8 @@ def fill_sweep(rng):
     return out
 
 
-FALS = {"fals_sv": fals_sv, "fals_dm": fals_sv, "fals_mps": fals_mps, "fals_fill": fals_fill}
+FALS = {"fals_sv": fals_sv, "fals_dm": fals_sv, "fals_mps": fals_mps, "fals_fill": fals_fill,
+        "fals_backend": fals_backend}
 
 
 def corpus_cases():
@@ -860,12 +1003,16 @@ def run(ctx):
     # ---- corpus + falsifier on the real code ----------------------------------------------------
     fcases = [dict(c, corpus=True) for c in corpus_cases()]
     fcases += fill_sweep(rng)
-    for kind, nq, nt in (("fals_sv", 40, 400), ("fals_dm", 20, 200), ("fals_mps", 40, 400), ("fals_fill", 40, 400)):
+    fcases += trunc_sweep(rng)
+    fcases += [gen_backend_case(rng, tight=(i % 3 != 2)) for i in range(ctx.n(3, 15))]
+    for kind, nq, nt in (("fals_sv", 40, 400), ("fals_dm", 20, 200), ("fals_mps", 30, 250), ("fals_fill", 30, 250)):
         fcases += [gen_fals_case(rng, kind) for _ in range(ctx.n(nq, nt))]
     for c in fcases:
         info = FALS[c["kind"]](ctx, c)
         size = c.get("N") or c.get("n") or len(c.get("mask", []))
         h(f"{c['kind']}/d={c.get('d', 2)}/size={size}")
+        if c["kind"] in ("fals_mps", "fals_fill", "fals_backend"):
+            h(f"{c['kind']}/settings={'tight' if c.get('trunc') else 'default'}")
         if c["kind"] == "fals_fill":
             h(f"fill/dark={len(c['mask']) - sum(c['mask'])}/{c['style']}")
             h(f"fill/impl={c.get('impl', 'plain')}/norm={'1' if c['scale'] == 1.0 else ('<1' if c['scale'] < 1 else '>1')}")
@@ -966,7 +1113,7 @@ def run(ctx):
                         "exact tie; real RydbergHamiltonian / RydbergLindbladian / MPO objects in the falsifier)",
                         "MPS expectation values, correlation matrix (QR inside) and entanglement entropy (SVD) are "
                         "validated, not proved: tolerance 1e-9 * scale; H^2 through MPO @ MPO truncates at 1e-5, "
-                        f"tolerance {TOL_MPO2} * ||H||^2",
+                        f"tolerance 1e-9 * ||H||^2 + {TOL_MPO2} * sites (absolute, normalised state)",
                         "states with a declared orthogonality centre are produced by MPS.orthogonalize (a false "
                         "declaration is outside the property)"]
 
